@@ -344,6 +344,9 @@ func srcName(v ssa.Value) string {
 			return p
 		}
 	case *ssa.Convert:
+		if isNarrowing(a) {
+			return typeShort(a.Type()) + "(" + srcName(a.X) + ")" // a narrowing conversion is not transparent
+		}
 		return srcName(a.X)
 	case *ssa.BinOp:
 		return "(" + srcName(a.X) + a.Op.String() + srcName(a.Y) + ")"
